@@ -15,6 +15,7 @@ pub mod c10;
 pub mod c11;
 pub mod c12;
 pub mod c13;
+pub mod c14;
 pub mod c15;
 pub mod c17;
 pub mod c18;
@@ -39,6 +40,7 @@ pub fn run(id: &str, tier: Tier, seed: u64, replay: Option<Value>) -> i32 {
         "C11" => c11::run(tier, seed, replay),
         "C12" => c12::run(tier, seed, replay),
         "C13" => c13::run(tier, seed, replay),
+        "C14" => c14::run(tier, seed, replay),
         "C15" => hist::run(&c15::spec(), tier, seed, replay),
         "C17" => c17::run(tier, seed, replay),
         "C18" => hist::run(&c18::spec(), tier, seed, replay),
